@@ -1,7 +1,11 @@
 //! simworld — deterministic simulation with fault injection for awslabs/tough (see DESIGN.md).
 
 mod c01;
+mod c02;
+mod c03;
+mod c04;
 mod c06;
+mod c14;
 mod classify;
 mod engine;
 mod json;
@@ -47,7 +51,11 @@ fn main() {
     let rest: Vec<String> = args.iter().skip(3).cloned().collect();
     let code = match id {
         "C01" => dispatch(&c01::C01, mode, &rest),
+        "C02" => dispatch(&c02::C02, mode, &rest),
+        "C03" => dispatch(&c03::C03, mode, &rest),
+        "C04" => dispatch(&c04::C04, mode, &rest),
         "C06" => dispatch(&c06::C06, mode, &rest),
+        "C14" => dispatch(&c14::C14, mode, &rest),
         _ => {
             eprintln!("unknown property {id}");
             2
